@@ -7,6 +7,10 @@ only answers with raw switch reports.  Oracles (vlib/c04_common.py):
       and every device is idle, MPF's counts must equal the world's;
   range   : after EVERY loop iteration 0 <= device.balls <= capacity, playfield.balls not below the documented bound;
   no_room : at every coil-driven launch the physical target must have a free slot.
+Case family "multi_pf" (vlib/c04_multipf.py, ~12% of the cases): 2-4 playfields each fed by its own trough, balls jump
+into another playfield's trough; the rest oracles are the same clauses, the playfield clause is membership in the set of
+count vectors a correct MPF can hold (the donor of a jumped ball is MPF's choice) plus at most one playfield_jump event
+per trough entry that can be a jump.
 """
 PROPERTY = "C04"
 LEVEL = "exploration"
@@ -22,7 +26,11 @@ RULE = ("case = generated topology (trough 2-6 switches with pulse/enable coil, 
         "do) x unsolicited entries (loose ball rolls back into the plunger lane, lock/VUK shots) while a source waits "
         "x fault schedule per device x script of game/player actions with rest points; distinct = topology kind, "
         "ball count, op-kind sequence, fault pattern; non-trivial = at least one rest point was reached with the "
-        "world frozen for the full horizon and all three rest clauses were evaluated")
+        "world frozen for the full horizon and all three rest clauses were evaluated.  About 12% of the cases are "
+        "of the family multi_pf (vlib/c04_multipf.py): 2-4 playfields, each fed by its own switch-counted 2-3 switch "
+        "trough holding 1-3 balls, script of add (playfield.add_ball) / drain (loose ball falls into its own "
+        "playfield's trough) / jump (loose ball falls into the trough of ANOTHER playfield) / rest with gaps 0-5 s, "
+        "biased towards jumps into a playfield without a loose ball while two or more other playfields hold one")
 LEVEL_TEXT = ("Exploration: thousands of generated timelines of the unmodified production classes; the world decides "
               "every physical outcome, the oracle compares MPF's counts with physical truth at rest points and checks "
               "range invariants after every loop iteration.  The space of timings is unbounded, hence sampling.")
@@ -30,7 +38,20 @@ LEVEL_NOTE = ("Trusts the world model (vlib/c04_world.py) as a faithful envelope
               "own TimeTravelLoop/TestClock, and the virtual platform's driver/switch interface.")
 ASSUMPTIONS = [
     "all balls start in ball devices at boot (num_balls_known is then the number of balls that exist)",
-    "one physical exit per device leading to one place: no diverters, no playfield transfers, one playfield",
+    "one physical exit per device leading to one place: no diverters, no playfield transfers; every family except "
+    "multi_pf has one playfield",
+    "multi_pf family: each playfield is fed by its own trough (eject_targets / captures_from that playfield); a "
+    "jumping ball lands in another playfield's trough; MPF cannot know which playfield a ball came from: a ball "
+    "entering the trough of a playfield MPF counts > 0 is taken from that playfield, otherwise exactly ONE ball is "
+    "taken from any other playfield that MPF counts > 0 - the donor choice is MPF's, the oracle tracks the set of all "
+    "count vectors reachable that way and demands membership at rest (equality with the physical loose counts "
+    "whenever the set is the single physical vector), at most one playfield_jump event per trough entry that can be "
+    "a jump and never source == target; playfield counts may be transiently negative between rest points",
+    "multi_pf family: an ejected ball rolls over its playfield's <pf>_active switch 0.7-1.2 s after leaving the "
+    "trough; a loose ball only drains / jumps after MPF confirmed its eject, no ball enters any trough while any "
+    "eject is requested / in flight / unconfirmed, and no ball is requested earlier than 2 s after the last trough "
+    "entry (so confirmations and captures never interleave ambiguously); ejects of different troughs and entries "
+    "into different troughs may overlap; no game is running",
     "a coil pulse / hold-coil release moves exactly one ball; no jam switches; no switch bounce shorter than the "
     "count delays; a resting ball closes exactly one ball switch",
     "entrance-counted devices get no undetectable faults (weak eject / fall back cannot be sensed by an entrance "
@@ -78,6 +99,9 @@ SHRINK_KEYS = ["ops"]
 
 def gen_case(rng, tier, index):
     from vlib import c04_common as C
+    if rng.random() < 0.12:
+        from vlib import c04_multipf as MP
+        return MP.gen_case(rng, tier)
     r = rng.random()
     if r < 0.30:
         level, fault = 0, 0
@@ -95,6 +119,9 @@ def gen_case(rng, tier, index):
 
 
 def run_case(case):
+    if case.get("family") == "multi_pf":
+        from vlib import c04_multipf as MP
+        return MP.run_case(case)
     from vlib import c04_common as C
     res = C.run_world_case(case, C.H_C04)
     viol = [v for v in res["violations"] if v["sig"].startswith("C04:")]
